@@ -412,6 +412,63 @@ def gen_world_case(r, nseg, max_cmds, deep=False, revert_heavy=False):
     return U, g.ops, g.stats
 
 
+def gen_ladder_case(r, nseg):
+    """Deterministic depth ladder: one segment at a time from depth 1 past the compaction limit
+    (twice).  Segment j writes a (name, key) pair that is never touched again, so at every depth
+    every position of the chain -- in particular the ROOT index -- holds a key that lives only
+    there; other pairs are churned (overwritten / deleted).  After every segment the new index
+    (segment facts) and a perspective opened on it are dumped with every exact and prefix query;
+    every third segment has two commands and is also opened / fact-queried mid-segment."""
+    U = Universe([b"x", b"y", b"z"], KEYS)
+    g = Gen(r, U)
+    g.plain = True
+    pairs = [(n, k) for n in U.names for k in U.keys]
+    churn, unique = pairs[:8], pairs[8:]
+    ui = 0
+
+    def fresh(h):
+        nonlocal ui
+        if ui < len(unique):
+            n, k = unique[ui]
+            g.emit(("I", h, n, k, bytes([1 + ui % 250])))
+            ui += 1
+
+    def churn_write(h, j):
+        n, k = churn[(j * 3) % len(churn)]
+        if j % 3 == 2 and (n, k) in g.o.persps[h]["flat"]:
+            g.emit(("D", h, n, k))
+            g.stats["tombstone_deletes"] += 1
+        else:
+            g.emit(("I", h, n, k, bytes([200 + j % 50])))
+        n2, k2 = churn[(j * 5 + 1) % len(churn)]
+        if j % 4 == 1 and (n2, k2) in g.o.persps[h]["flat"]:
+            g.emit(("D", h, n2, k2))
+            g.stats["tombstone_deletes"] += 1
+
+    g.emit(("N",))
+    for _ in range(3):
+        fresh(0)                       # the root index: keys never touched again
+    g.emit(("A", 0, g.next_id)); g.next_id += 1
+    g.emit(("C", 0))
+    for j in range(1, nseg + 1):
+        s = len(g.o.segs) - 1
+        g.emit(("O", s, len(g.o.segs[s]["snaps"]) - 1))      # perspective on the newest index: full dump
+        g.stats["head_opens"] += 1
+        h = g.last_persp()
+        fresh(h)
+        if j % 3 == 0:
+            g.emit(("A", h, g.next_id)); g.next_id += 1
+        churn_write(h, j)
+        g.emit(("A", h, g.next_id)); g.next_id += 1
+        g.emit(("W", h))                                      # the new index: full dump
+        if j % 3 == 0:
+            s2 = len(g.o.segs) - 1
+            g.emit(("O", s2, 0))                              # mid-segment perspective
+            g.emit(("T", s2, 0))                              # mid-segment fact perspective
+            g.stats["mid_opens"] += 1
+    return U, g.ops, g.stats
+
+
 def gen_malformed_case(r):
     """API misuse / error paths: dead handles, empty perspectives, out-of-range locations,
     unknown indexes.  Model and implementation must still agree step by step."""
